@@ -102,7 +102,13 @@ class iterable_loader(DataStreamProcessor):
     def process_datapackage(self, dp: Package):
         name = self.name
         if name is None:
-            name = 'res_{}'.format(len(dp.resources) + 1)
+            # res_<position>, skipping names that are still in use (after a delete_resource the
+            # position-based name of a new resource may belong to a resource that is still there)
+            taken = set(r.get('name') for r in dp.descriptor.get('resources', []))
+            index = len(dp.resources) + 1
+            while 'res_{}'.format(index) in taken:
+                index += 1
+            name = 'res_{}'.format(index)
         self.res = Resource(dict(
             name=name,
             path='{}.csv'.format(name)
